@@ -322,6 +322,13 @@ class MailboxData(MailboxDataInterface[Message]):
             new_rec = Record(uidl.next_uid, rec.fields, new_filename)
             uidl.next_uid += 1
             uidl.set(new_rec)
+        async with UidList.with_write(self._path) as uidl:
+            # the file keeps its name: a stale record would become valid
+            # again, under its old UID, if the message is ever moved back
+            try:
+                uidl.remove(uid)
+            except KeyError:
+                pass
         return new_rec.uid
 
     async def get(self, uid: int, cached_msg: CachedMessage) -> Message:
